@@ -607,7 +607,9 @@ class WriterExtractor:
         # call on a field object / element
         subs = self.m.subclasses(tcls, strict=True)
         if subs or self._is_abstract(tcls, f.attr):
-            # polymorphic: a nonterminal named after the base class
+            # polymorphic: a nonterminal named after the base class - which stands for what the classes' `pack` writes
+            if wargs and f.attr != "pack":
+                raise AnalysisError(f"{fi.qualname}:{c.lineno}: the writer is handed to `{norm(c.func)[:50]}`, a method other than pack() of a polymorphic field: what it writes is not in the grammar")
             if wargs:
                 env[wargs[0].id][1].append(WNode("ref", nt=tcls, src=Src("elem" if is_elem else "field", path), line=c.lineno, func=fi.qualname))
             return None
